@@ -161,7 +161,10 @@ func TestC05SortExhaustive(t *testing.T) {
 	}
 	nw := vk.Workers(total)
 	tallies := make([]*vk.Tally, nw)
-	slots := make([]interface{ Enter(any); Leave() }, nw)
+	slots := make([]interface {
+		Enter(any)
+		Leave()
+	}, nw)
 	for i := range tallies {
 		tallies[i] = vk.NewTally()
 		slots[i] = h.Slot()
